@@ -99,6 +99,12 @@ scanIsContinued(String line)
 	if (line[i+1] == '=') 
 	  doubleEqualIsLast = true;
 	break;
+      case '-':
+      case '+':
+	/* "--" and "++" start a comment: the rest of the line is not code */
+	if (line[i+1] == line[i]) { i = len; break; }
+	doubleEqualIsLast = false;
+	break;
       case ' ': 
 	break;
       case '\n':
